@@ -19,9 +19,9 @@ package eng
 
 import (
 	"fmt"
-	"os"
 	"go/token"
 	"go/types"
+	"os"
 	"sort"
 	"strings"
 
@@ -42,10 +42,16 @@ type gbound struct {
 	inLoop map[*ssa.BasicBlock]bool
 	trips  map[*ssa.Phi]gpoly // trip counts of the counters used
 	lb     map[string]int64
+	// case split over boolean parameters that select loop bounds / index values
+	boolEnv  map[*ssa.Parameter]bool
+	needBool map[*ssa.Parameter]bool
+	// refinements of counters valid on the edge being evaluated (p == hi excluded, p == c fixed)
+	refine map[*ssa.Phi]gival
 }
 
 func newGBound(fn *ssa.Function) *gbound {
-	g := &gbound{fn: fn, loops: ssau.Loops(fn), inLoop: map[*ssa.BasicBlock]bool{}, trips: map[*ssa.Phi]gpoly{}}
+	g := &gbound{fn: fn, loops: ssau.Loops(fn), inLoop: map[*ssa.BasicBlock]bool{}, trips: map[*ssa.Phi]gpoly{},
+		boolEnv: map[*ssa.Parameter]bool{}, needBool: map[*ssa.Parameter]bool{}, refine: map[*ssa.Phi]gival{}}
 	for _, l := range g.loops {
 		for b := range l.Blocks {
 			g.inLoop[b] = true
@@ -79,7 +85,7 @@ func (g *gbound) counterRange(phi *ssa.Phi) (int64, gpoly, bool) {
 				continue
 			}
 			ifi, ok := b.Instrs[len(b.Instrs)-1].(*ssa.If)
-			if !ok || (l.Blocks[b.Succs[0]] && l.Blocks[b.Succs[1]]) {
+			if !ok || (l.Blocks[b.Succs[0]] && l.Blocks[b.Succs[1]]) || !l.Blocks[b.Succs[0]] {
 				continue
 			}
 			cmp, ok := ifi.Cond.(*ssa.BinOp)
@@ -90,29 +96,188 @@ func (g *gbound) counterRange(phi *ssa.Phi) (int64, gpoly, bool) {
 			if p2 != phi {
 				continue
 			}
-			t, ok := tripCount(l)
-			if !ok {
-				return 0, nil, false
-			}
 			start := int64(0)
 			okStart := false
+			step := false
 			for _, e := range phi.Edges {
 				if k, ok := ssau.ConstInt(e); ok {
 					start, okStart = k, true
 				}
+				if bo, ok := e.(*ssa.BinOp); ok && bo.Op == token.ADD && bo.X == phi {
+					if k, ok := ssau.ConstInt(bo.Y); ok && k == 1 {
+						step = true
+					}
+				}
 			}
-			_ = off
-			if !okStart {
+			if !okStart || !step {
 				return 0, nil, false
 			}
-			// the bound must be invariant
-			if !g.invariantExpr(cmp.Y, 0) {
+			bound, ok := g.polyInv(cmp.Y, 0)
+			if !ok {
 				return 0, nil, false
+			}
+			// trip count: (bound − (start+off)) for <, one more for <=
+			t := bound.add(gconst(start+off), -1)
+			if cmp.Op == token.LEQ {
+				t = t.add(gconst(1), 1)
 			}
 			return start, t, true
 		}
 	}
 	return 0, nil, false
+}
+
+// boolParamOf: v is a boolean parameter or its negation → (param, polarity).
+func boolParamOf(v ssa.Value) (*ssa.Parameter, bool, bool) {
+	pol := true
+	for depth := 0; depth < 4; depth++ {
+		switch x := v.(type) {
+		case *ssa.Parameter:
+			if b, ok := x.Type().Underlying().(*types.Basic); ok && b.Info()&types.IsBoolean != 0 {
+				return x, pol, true
+			}
+			return nil, false, false
+		case *ssa.UnOp:
+			if x.Op == token.NOT {
+				pol = !pol
+				v = x.X
+				continue
+			}
+			return nil, false, false
+		default:
+			return nil, false, false
+		}
+	}
+	return nil, false, false
+}
+
+type edgeCond struct {
+	cond ssa.Value
+	val  bool
+}
+
+func lastIf(b *ssa.BasicBlock) *ssa.If {
+	if b == nil || len(b.Instrs) == 0 {
+		return nil
+	}
+	ifi, _ := b.Instrs[len(b.Instrs)-1].(*ssa.If)
+	return ifi
+}
+
+// condsOnEdge: branch outcomes known on the i-th incoming edge of phi (structured ifs between the φ's dominator
+// and the predecessor).
+func condsOnEdge(phi *ssa.Phi, i int) []edgeCond {
+	var out []edgeCond
+	blk := phi.Block()
+	pred := blk.Preds[i]
+	if ifi := lastIf(pred); ifi != nil {
+		if pred.Succs[0] == blk && pred.Succs[1] != blk {
+			out = append(out, edgeCond{ifi.Cond, true})
+		} else if pred.Succs[1] == blk && pred.Succs[0] != blk {
+			out = append(out, edgeCond{ifi.Cond, false})
+		}
+	}
+	stop := blk.Idom()
+	for x := pred; x != nil && x != stop; {
+		p := x.Idom()
+		if p == nil {
+			break
+		}
+		if ifi := lastIf(p); ifi != nil {
+			if p.Succs[0] == x && p.Succs[1] != x {
+				out = append(out, edgeCond{ifi.Cond, true})
+			} else if p.Succs[1] == x && p.Succs[0] != x {
+				out = append(out, edgeCond{ifi.Cond, false})
+			}
+		}
+		x = p
+	}
+	return out
+}
+
+// selectByBool: phi is selected by boolean parameters only; returns the edge value valid under boolEnv.
+// ok=false with needBool filled when an assignment is missing.
+func (g *gbound) selectByBool(phi *ssa.Phi) (ssa.Value, bool) {
+	var chosen ssa.Value
+	n := 0
+	for i, e := range phi.Edges {
+		feasible := true
+		for _, c := range condsOnEdge(phi, i) {
+			bp, pol, ok := boolParamOf(c.cond)
+			if !ok {
+				return nil, false
+			}
+			want := c.val == pol // value the parameter must have
+			have, assigned := g.boolEnv[bp]
+			if !assigned {
+				g.needBool[bp] = true
+				return nil, false
+			}
+			if have != want {
+				feasible = false
+			}
+		}
+		if feasible {
+			chosen = e
+			n++
+		}
+	}
+	if n != 1 {
+		return nil, false
+	}
+	return chosen, true
+}
+
+// polyInv: polynomial of a loop-invariant integer expression; φs selected by boolean parameters are resolved
+// under the current case (boolEnv).
+func (g *gbound) polyInv(v ssa.Value, depth int) (gpoly, bool) {
+	if depth > 10 {
+		return nil, false
+	}
+	switch x := v.(type) {
+	case *ssa.Phi:
+		e, ok := g.selectByBool(x)
+		if !ok {
+			return nil, false
+		}
+		return g.polyInv(e, depth+1)
+	case *ssa.BinOp:
+		a, ok1 := g.polyInv(x.X, depth+1)
+		b, ok2 := g.polyInv(x.Y, depth+1)
+		if !ok1 || !ok2 {
+			return nil, false
+		}
+		switch x.Op {
+		case token.ADD:
+			return a.add(b, 1), true
+		case token.SUB:
+			return a.add(b, -1), true
+		case token.MUL:
+			return a.mul(b), true
+		}
+		return nil, false
+	case *ssa.Convert:
+		return g.polyInv(x.X, depth+1)
+	case *ssa.UnOp:
+		if x.Op == token.MUL {
+			if a, ok := x.X.(*ssa.Alloc); ok {
+				var vals []ssa.Value
+				for _, r := range ssau.Refs(a) {
+					if st, ok := r.(*ssa.Store); ok && st.Addr == a {
+						vals = append(vals, st.Val)
+					}
+				}
+				if len(vals) == 1 {
+					return g.polyInv(vals[0], depth+1)
+				}
+				return nil, false
+			}
+		}
+	}
+	if !g.invariantExpr(v, 0) {
+		return nil, false
+	}
+	return polyOf(v, 0), true
 }
 
 // invariantExpr: v is built from parameters, constants, configuration fields of parameters and len() of
@@ -123,6 +288,21 @@ func (g *gbound) invariantExpr(v ssa.Value, depth int) bool {
 	}
 	switch x := v.(type) {
 	case *ssa.Parameter, *ssa.Const, *ssa.FreeVar:
+		return true
+	case *ssa.Phi:
+		if g.inLoop[x.Block()] {
+			return false
+		}
+		for i, e := range x.Edges {
+			for _, c := range condsOnEdge(x, i) {
+				if _, _, ok := boolParamOf(c.cond); !ok {
+					return false
+				}
+			}
+			if !g.invariantExpr(e, depth+1) {
+				return false
+			}
+		}
 		return true
 	case *ssa.BinOp:
 		return g.invariantExpr(x.X, depth+1) && g.invariantExpr(x.Y, depth+1)
@@ -190,32 +370,120 @@ func (g *gbound) invariant(v ssa.Value) bool {
 	return false
 }
 
-func (g *gbound) rangeOf(v ssa.Value, depth int) (gival, bool) {
+const maxCands = 24
+
+func one(v gival) []gival { return []gival{v} }
+
+// combine applies f to every pair of candidates.
+func combine(as, bs []gival, f func(a, b gival) (gival, bool)) ([]gival, bool) {
+	if len(as)*len(bs) > maxCands {
+		return nil, false
+	}
+	var out []gival
+	for _, a := range as {
+		for _, b := range bs {
+			r, ok := f(a, b)
+			if !ok {
+				return nil, false
+			}
+			out = append(out, r)
+		}
+	}
+	return out, true
+}
+
+// rangeOf: the candidate intervals of an integer value (one per feasible combination of φ edges).
+func (g *gbound) rangeOf(v ssa.Value, depth int) ([]gival, bool) {
 	if depth > 14 {
-		return gival{}, false
+		return nil, false
 	}
 	switch x := v.(type) {
 	case *ssa.Const:
 		if k, ok := ssau.ConstInt(x); ok {
-			return exact(gconst(k)), true
+			return one(exact(gconst(k))), true
 		}
-		return gival{}, false
+		return nil, false
 	case *ssa.Convert:
 		return g.rangeOf(x.X, depth+1)
 	case *ssa.ChangeType:
 		return g.rangeOf(x.X, depth+1)
 	case *ssa.Parameter:
 		if b, ok := x.Type().Underlying().(*types.Basic); ok && b.Info()&types.IsInteger != 0 {
-			return exact(polyOf(x, 0)), true
+			return one(exact(polyOf(x, 0))), true
 		}
-		return gival{}, false
+		return nil, false
 	case *ssa.Phi:
-		start, t, ok := g.counterRange(x)
-		if !ok {
-			return gival{}, false
+		if r, ok := g.refine[x]; ok {
+			return one(r), true
 		}
-		g.trips[x] = t
-		return gival{lo: gconst(start), hi: gconst(start).add(t, 1).add(gconst(1), -1), counters: map[*ssa.Phi]int{x: 1}}, true
+		if start, t, ok := g.counterRange(x); ok {
+			g.trips[x] = t
+			return one(gival{lo: gconst(start), hi: gconst(start).add(t, 1).add(gconst(1), -1), counters: map[*ssa.Phi]int{x: 1}}), true
+		}
+		if len(g.needBool) > 0 {
+			return nil, false
+		}
+		// a join of values: one candidate per feasible edge, evaluated under what is known on that edge
+		if len(x.Edges) > 4 {
+			return nil, false
+		}
+		for _, l := range g.loops {
+			if l.Header == x.Block() {
+				return nil, false // loop-carried value that is not a recognised counter
+			}
+		}
+		var out []gival
+		for i, e := range x.Edges {
+			feasible, inexact := true, false
+			saved := map[*ssa.Phi]*gival{}
+			for _, c := range condsOnEdge(x, i) {
+				if bp, pol, ok := boolParamOf(c.cond); ok {
+					want := c.val == pol
+					have, assigned := g.boolEnv[bp]
+					if !assigned {
+						g.needBool[bp] = true
+						feasible = false
+						break
+					}
+					if have != want {
+						feasible = false
+					}
+					continue
+				}
+				if !g.applyCond(c, saved) {
+					inexact = true
+				}
+			}
+			var cs []gival
+			ok := true
+			if feasible {
+				cs, ok = g.rangeOf(e, depth+1)
+			}
+			for ph, old := range saved {
+				if old == nil {
+					delete(g.refine, ph)
+				} else {
+					g.refine[ph] = *old
+				}
+			}
+			if len(g.needBool) > 0 {
+				return nil, false
+			}
+			if !feasible {
+				continue
+			}
+			if !ok {
+				return nil, false
+			}
+			for _, c := range cs {
+				c.inexact = c.inexact || inexact
+				out = append(out, c)
+			}
+		}
+		if len(out) == 0 || len(out) > maxCands {
+			return nil, false
+		}
+		return out, true
 	case *ssa.UnOp:
 		if x.Op == token.MUL {
 			if a, ok := x.X.(*ssa.Alloc); ok {
@@ -228,73 +496,143 @@ func (g *gbound) rangeOf(v ssa.Value, depth int) (gival, bool) {
 				if len(vals) == 1 {
 					return g.rangeOf(vals[0], depth+1)
 				}
-				return gival{}, false
+				return nil, false
 			}
 			// field of a parameter (receiver configuration)
 			if _, ok := x.X.(*ssa.FieldAddr); ok && g.invariantExpr(x, 0) {
 				if b, ok := x.Type().Underlying().(*types.Basic); ok && b.Info()&types.IsInteger != 0 {
-					return exact(polyOf(x, 0)), true
+					return one(exact(polyOf(x, 0))), true
 				}
 			}
 		}
 		if x.Op == token.SUB {
-			r, ok := g.rangeOf(x.X, depth+1)
+			rs, ok := g.rangeOf(x.X, depth+1)
 			if !ok {
-				return gival{}, false
+				return nil, false
 			}
-			return gival{lo: gpoly{}.add(r.hi, -1), hi: gpoly{}.add(r.lo, -1), counters: r.counters, inexact: r.inexact}, true
+			var out []gival
+			for _, r := range rs {
+				out = append(out, gival{lo: gpoly{}.add(r.hi, -1), hi: gpoly{}.add(r.lo, -1), counters: r.counters, inexact: r.inexact})
+			}
+			return out, true
 		}
-		return gival{}, false
+		return nil, false
 	case *ssa.Field:
 		if g.invariant(x) {
 			if b, ok := x.Type().Underlying().(*types.Basic); ok && b.Info()&types.IsInteger != 0 {
-				return exact(polyOf(x, 0)), true
+				return one(exact(polyOf(x, 0))), true
 			}
 		}
-		return gival{}, false
+		return nil, false
 	case *ssa.Call:
 		if ssau.Builtin(x) == "len" && len(x.Call.Args) == 1 {
 			if _, isParam := x.Call.Args[0].(*ssa.Parameter); isParam {
-				return exact(polyOf(x, 0)), true
+				return one(exact(polyOf(x, 0))), true
 			}
 		}
-		return gival{}, false
+		return nil, false
 	case *ssa.BinOp:
-		a, ok1 := g.rangeOf(x.X, depth+1)
+		as, ok1 := g.rangeOf(x.X, depth+1)
 		if !ok1 {
-			return gival{}, false
+			return nil, false
 		}
-		b, ok2 := g.rangeOf(x.Y, depth+1)
+		bs, ok2 := g.rangeOf(x.Y, depth+1)
 		if !ok2 {
-			return gival{}, false
+			return nil, false
 		}
-		cs := mergeCounters(a.counters, b.counters)
-		inx := a.inexact || b.inexact
 		switch x.Op {
 		case token.ADD:
-			return gival{lo: a.lo.add(b.lo, 1), hi: a.hi.add(b.hi, 1), counters: cs, inexact: inx}, true
+			return combine(as, bs, func(a, b gival) (gival, bool) {
+				return gival{lo: a.lo.add(b.lo, 1), hi: a.hi.add(b.hi, 1), counters: mergeCounters(a.counters, b.counters), inexact: a.inexact || b.inexact}, true
+			})
 		case token.SUB:
-			return gival{lo: a.lo.add(b.hi, -1), hi: a.hi.add(b.lo, -1), counters: cs, inexact: inx}, true
+			return combine(as, bs, func(a, b gival) (gival, bool) {
+				return gival{lo: a.lo.add(b.hi, -1), hi: a.hi.add(b.lo, -1), counters: mergeCounters(a.counters, b.counters), inexact: a.inexact || b.inexact}, true
+			})
 		case token.MUL:
-			// factors are taken non-negative; checked by the caller through lo ≥ 0 of the whole (a negative
-			// factor shows up as a negative coefficient there) — to stay sound, require syntactic non-negativity
-			// of both lower bounds before shifting by guards is known: deferred to the caller via `needNonNeg`.
-			if !nonNegCoeffs(shiftPoly(a.lo, g.lb)) || !nonNegCoeffs(shiftPoly(b.lo, g.lb)) {
-				return gival{}, false
-			}
-			return gival{lo: a.lo.mul(b.lo), hi: a.hi.mul(b.hi), counters: cs, inexact: inx || !(len(a.counters) == 0 || len(b.counters) == 0)}, true
+			return combine(as, bs, func(a, b gival) (gival, bool) {
+				if !nonNegCoeffs(shiftPoly(a.lo, g.lb)) || !nonNegCoeffs(shiftPoly(b.lo, g.lb)) {
+					return gival{}, false
+				}
+				return gival{lo: a.lo.mul(b.lo), hi: a.hi.mul(b.hi), counters: mergeCounters(a.counters, b.counters),
+					inexact: a.inexact || b.inexact || !(len(a.counters) == 0 || len(b.counters) == 0)}, true
+			})
 		case token.REM:
-			if len(b.counters) != 0 {
-				return gival{}, false
-			}
-			// x % m ∈ [0, m−1] for x ≥ 0; exact when x runs over a whole period: one counter, unit coefficient,
-			// with exactly m values (hi − lo + 1 = m)
-			span := a.hi.add(a.lo, -1).add(gconst(1), 1)
-			ex := !a.inexact && len(a.counters) == 1 && span.equal(b.lo)
-			return gival{lo: gconst(0), hi: b.hi.add(gconst(1), -1), counters: cs, inexact: inx || !ex}, true
+			return combine(as, bs, func(a, b gival) (gival, bool) {
+				if len(b.counters) != 0 {
+					return gival{}, false
+				}
+				// x % m ∈ [0, m−1] for x ≥ 0; exact when x runs over a whole period
+				span := a.hi.add(a.lo, -1).add(gconst(1), 1)
+				ex := !a.inexact && len(a.counters) == 1 && span.equal(b.lo)
+				return gival{lo: gconst(0), hi: b.hi.add(gconst(1), -1), counters: mergeCounters(a.counters, b.counters), inexact: a.inexact || b.inexact || !ex}, true
+			})
 		}
 	}
-	return gival{}, false
+	return nil, false
+}
+
+// applyCond narrows a counter under a branch outcome known on the edge: c == e (counter fixed), c != hi
+// (hi excluded), c != lo (lo excluded). Returns false when the condition is not understood (the candidate is then
+// not exact: its feasibility is unknown).
+func (g *gbound) applyCond(c edgeCond, saved map[*ssa.Phi]*gival) bool {
+	b, ok := c.cond.(*ssa.BinOp)
+	if !ok || (b.Op != token.EQL && b.Op != token.NEQ) {
+		return false
+	}
+	eq := (b.Op == token.EQL) == c.val
+	for _, pr := range [][2]ssa.Value{{b.X, b.Y}, {b.Y, b.X}} {
+		var ph *ssa.Phi
+		off := int64(0)
+		switch y := pr[0].(type) {
+		case *ssa.Phi:
+			ph = y
+		case *ssa.BinOp:
+			if p2, ok := y.X.(*ssa.Phi); ok && y.Op == token.ADD {
+				if k, ok := ssau.ConstInt(y.Y); ok {
+					ph, off = p2, k
+				}
+			}
+		}
+		if ph == nil {
+			continue
+		}
+		start, t, ok := g.counterRange(ph)
+		if !ok {
+			continue
+		}
+		other, ok := g.polyInv(pr[1], 0)
+		if !ok {
+			continue
+		}
+		other = other.add(gconst(off), -1) // (φ + off) ⋈ e  ⇔  φ ⋈ e − off
+		cur := gival{lo: gconst(start), hi: gconst(start).add(t, 1).add(gconst(1), -1), counters: map[*ssa.Phi]int{ph: 1}}
+		if r, ok := g.refine[ph]; ok {
+			cur = r
+		}
+		g.trips[ph] = t
+		if _, done := saved[ph]; !done {
+			if old, had := g.refine[ph]; had {
+				o := old
+				saved[ph] = &o
+			} else {
+				saved[ph] = nil
+			}
+		}
+		switch {
+		case eq:
+			g.refine[ph] = gival{lo: other, hi: other, counters: map[*ssa.Phi]int{ph: 1}}
+			return true
+		case other.equal(cur.hi):
+			g.refine[ph] = gival{lo: cur.lo, hi: cur.hi.add(gconst(1), -1), counters: cur.counters}
+			return true
+		case other.equal(cur.lo):
+			g.refine[ph] = gival{lo: cur.lo.add(gconst(1), 1), hi: cur.hi, counters: cur.counters}
+			return true
+		}
+		return false
+	}
+	return false
 }
 
 // guardLowerBounds: `if p < K { panic }` / `if p <= K { panic }` (true branch never returns) ⇒ atom ≥ K(+1).
@@ -582,102 +920,215 @@ func GeneratorBounds(fn *ssa.Function, modelingPath string) (out []BoundFinding,
 		elems, sites, _ := indexElements(m.idx)
 		per := map[ssa.Instruction]int{}
 		for i, e := range elems {
-			g := newGBound(fn)
-			g.lb = lb
 			per[sites[i]]++
 			key := fmt.Sprintf("%d", per[sites[i]])
 			if ok, detail := ancestorLenForm(e, m.arrs); ok {
 				out = append(out, BoundFinding{Fn: fn, At: sites[i], Key: key, OK: true, Decided: true, Detail: detail})
 				continue
 			}
-			r, ok := g.rangeOf(e, 0)
-			if !ok {
+			// case split over the boolean parameters that select bounds / values
+			cases := []map[*ssa.Parameter]bool{{}}
+			var all []gival
+			var allCase []map[*ssa.Parameter]bool
+			var allTrips []map[*ssa.Phi]gpoly
+			covered := true
+			for ci := 0; ci < len(cases) && covered; ci++ {
+				g := newGBound(fn)
+				g.lb = lb
+				g.boolEnv = cases[ci]
+				rs, ok := g.rangeOf(e, 0)
+				if len(g.needBool) > 0 {
+					if len(cases[ci]) >= 3 {
+						covered = false
+						break
+					}
+					var bp *ssa.Parameter
+					for p := range g.needBool {
+						if bp == nil || p.Pos() < bp.Pos() {
+							bp = p
+						}
+					}
+					for _, val := range []bool{false, true} {
+						nc := map[*ssa.Parameter]bool{bp: val}
+						for k, v := range cases[ci] {
+							nc[k] = v
+						}
+						cases = append(cases, nc)
+					}
+					continue
+				}
+				if !ok {
+					covered = false
+					if os.Getenv("POLYCHECK_GENDEBUG") != "" {
+						fmt.Fprintf(os.Stderr, "GENDEBUG %s: element %s = %s outside the fragment\n", fn.Name(), e.Name(), canonExpr(e, 0))
+					}
+					break
+				}
+				// the emission site only executes when every enclosing loop runs at least once
+				for _, l := range g.loops {
+					if !l.Blocks[sites[i].Block()] {
+						continue
+					}
+					for _, hi := range l.Header.Instrs {
+						ph, ok := hi.(*ssa.Phi)
+						if !ok {
+							break
+						}
+						if _, t, ok := g.counterRange(ph); ok {
+							g.trips[ph] = t
+						}
+					}
+				}
+				for _, r := range rs {
+					all = append(all, r)
+					allCase = append(allCase, cases[ci])
+					allTrips = append(allTrips, g.trips)
+				}
+			}
+			if !covered || len(all) == 0 {
+				notCovered++
+				continue
+			}
+			holds := true
+			var firstDetail string
+			var viol *BoundFinding
+			for ri, r := range all {
+				st, detail := judgeBound(r, N, lb, allTrips[ri], allCase[ri])
+				if firstDetail == "" {
+					firstDetail = detail
+				}
+				if st != 1 {
+					holds = false
+				}
+				if st == 2 && viol == nil {
+					viol = &BoundFinding{Fn: fn, At: sites[i], Key: key, OK: false, Decided: true, Detail: detail}
+				}
+			}
+			switch {
+			case holds:
+				d := firstDetail
+				if len(all) > 1 {
+					d += fmt.Sprintf(" (and %d more cases of the branches / boolean parameters that select the value)", len(all)-1)
+				}
+				out = append(out, BoundFinding{Fn: fn, At: sites[i], Key: key, OK: true, Decided: true, Detail: d})
+			case viol != nil:
+				out = append(out, *viol)
+			default:
 				notCovered++
 				if os.Getenv("POLYCHECK_GENDEBUG") != "" {
-					fmt.Fprintf(os.Stderr, "GENDEBUG %s: element %s = %s outside the fragment\n", fn.Name(), e.Name(), canonExpr(e, 0))
-				}
-				continue
-			}
-			D := shiftPoly(N.add(r.hi, -1).add(gconst(1), -1), lb)
-			lo := shiftPoly(r.lo, lb)
-			if nonNegCoeffs(D) && nonNegCoeffs(lo) {
-				out = append(out, BoundFinding{Fn: fn, At: sites[i], Key: key, OK: true, Decided: true,
-					Detail: fmt.Sprintf("index ∈ [%s, %s], vertex count %s: (count − max − 1) = %s has no negative coefficient under the guards %v", r.lo, r.hi, N, D, lbString(lb))})
-				continue
-			}
-			// witness search (only for exact maxima)
-			ex := !r.inexact
-			for _, n := range r.counters {
-				if n != 1 {
-					ex = false
-				}
-			}
-			if !ex {
-				notCovered++
-				continue
-			}
-			var trips []gpoly
-			for _, t := range g.trips {
-				trips = append(trips, shiftPoly(t, lb))
-			}
-			atoms := polyAtoms(append([]gpoly{D, lo}, trips...)...)
-			free := len(atoms) <= 4
-			for _, a := range atoms {
-				// a witness assigns values independently: only parameters, their integer fields and the lengths
-				// of slice parameters are free
-				if !(strings.HasPrefix(a, "param:") || strings.HasPrefix(a, "load(param:") || strings.HasPrefix(a, "len(param:")) || strings.Count(a, "(") > 1 {
-					free = false
-				}
-			}
-			if !free {
-				notCovered++
-				continue
-			}
-			env := map[string]int64{}
-			var witness map[string]int64
-			var rec func(i int)
-			rec = func(i int) {
-				if witness != nil {
-					return
-				}
-				if i == len(atoms) {
-					for _, t := range trips {
-						if evalPoly(t, env) < 1 {
-							return
-						}
+					for _, r := range all {
+						fmt.Fprintf(os.Stderr, "GENDEBUG %s: element %s no certificate: [%s, %s] inexact=%v N=%s\n", fn.Name(), e.Name(), r.lo, r.hi, r.inexact, N)
 					}
-					if evalPoly(D, env) < 0 || evalPoly(lo, env) < 0 {
-						witness = map[string]int64{}
-						for k, v := range env {
-							witness[k] = v + lb[k]
-						}
-					}
-					return
-				}
-				for v := int64(0); v <= 6; v++ {
-					env[atoms[i]] = v
-					rec(i + 1)
 				}
 			}
-			rec(0)
-			if witness == nil {
-				notCovered++
-				continue
-			}
-			var ws []string
-			for _, a := range atoms {
-				ws = append(ws, fmt.Sprintf("%s = %d", a, witness[a]))
-			}
-			if evalPoly(shiftPoly(r.lo, lb), envOf(witness, lb)) < 0 && evalPoly(D, envOf(witness, lb)) >= 0 {
-				out = append(out, BoundFinding{Fn: fn, At: sites[i], Key: key, OK: false, Decided: true,
-					Detail: fmt.Sprintf("index can be as low as %s: with %s (accepted by the generator's guards %s) the index is %d — a negative index", r.lo, strings.Join(ws, ", "), lbString(lb), evalPoly(r.lo, witness))})
-				continue
-			}
-			out = append(out, BoundFinding{Fn: fn, At: sites[i], Key: key, OK: false, Decided: true,
-				Detail: fmt.Sprintf("index reaches %s while the mesh has %s vertices: with %s the largest index is %d but only %d vertices exist — an index past the vertex arrays", r.hi, N, strings.Join(ws, ", "), evalPoly(r.hi, witness), evalPoly(N, witness))})
 		}
 	}
 	return
+}
+
+// judgeBound: 1 = certificate (index within [0, N) for every parameterisation the guards accept), 2 = violation with
+// a concrete witness, 0 = neither.
+func judgeBound(r gival, N gpoly, lb0 map[string]int64, tripsOf map[*ssa.Phi]gpoly, bcase map[*ssa.Parameter]bool) (int, string) {
+	// loops that enclose the emission run at least once: a trip count "atom + c" gives atom ≥ 1 − c
+	lb := map[string]int64{}
+	for k, v := range lb0 {
+		lb[k] = v
+	}
+	for _, t := range tripsOf {
+		var atom string
+		var c int64
+		ok := true
+		for term, coef := range t {
+			switch {
+			case term == "":
+				c = coef
+			case coef == 1 && !strings.Contains(term, "*") && atom == "":
+				atom = term
+			default:
+				ok = false
+			}
+		}
+		if ok && atom != "" && 1-c > lb[atom] {
+			lb[atom] = 1 - c
+		}
+	}
+	D := shiftPoly(N.add(r.hi, -1).add(gconst(1), -1), lb)
+	lo := shiftPoly(r.lo, lb)
+	caseTxt := ""
+	if len(bcase) > 0 {
+		var ps []string
+		for p, v := range bcase {
+			ps = append(ps, fmt.Sprintf("%s = %v", p.Name(), v))
+		}
+		sort.Strings(ps)
+		caseTxt = " [case " + strings.Join(ps, ", ") + "]"
+	}
+	if nonNegCoeffs(D) && nonNegCoeffs(lo) {
+		return 1, fmt.Sprintf("index ∈ [%s, %s], vertex count %s: (count − max − 1) = %s has no negative coefficient under the guards %v%s", r.lo, r.hi, N, D, lbString(lb), caseTxt)
+	}
+	ex := !r.inexact
+	for _, n := range r.counters {
+		if n != 1 {
+			ex = false
+		}
+	}
+	if !ex {
+		return 0, ""
+	}
+	var trips []gpoly
+	for _, t := range tripsOf {
+		trips = append(trips, shiftPoly(t, lb))
+	}
+	atoms := polyAtoms(append([]gpoly{D, lo}, trips...)...)
+	free := len(atoms) <= 4
+	for _, a := range atoms {
+		// a witness assigns values independently: only parameters, their integer fields and the lengths of slice
+		// parameters are free
+		if !(strings.HasPrefix(a, "param:") || strings.HasPrefix(a, "load(param:") || strings.HasPrefix(a, "len(param:")) || strings.Count(a, "(") > 1 {
+			free = false
+		}
+	}
+	if !free {
+		return 0, ""
+	}
+	env := map[string]int64{}
+	var witness map[string]int64
+	var rec func(i int)
+	rec = func(i int) {
+		if witness != nil {
+			return
+		}
+		if i == len(atoms) {
+			for _, t := range trips {
+				if evalPoly(t, env) < 1 {
+					return
+				}
+			}
+			if evalPoly(D, env) < 0 || evalPoly(lo, env) < 0 {
+				witness = map[string]int64{}
+				for k, v := range env {
+					witness[k] = v + lb[k]
+				}
+			}
+			return
+		}
+		for v := int64(0); v <= 6; v++ {
+			env[atoms[i]] = v
+			rec(i + 1)
+		}
+	}
+	rec(0)
+	if witness == nil {
+		return 0, ""
+	}
+	var ws []string
+	for _, a := range atoms {
+		ws = append(ws, fmt.Sprintf("%s = %d", a, witness[a]))
+	}
+	if evalPoly(lo, envOf(witness, lb)) < 0 && evalPoly(D, envOf(witness, lb)) >= 0 {
+		return 2, fmt.Sprintf("index can be as low as %s: with %s%s (accepted by the generator's guards %s) the index is %d — a negative index", r.lo, strings.Join(ws, ", "), caseTxt, lbString(lb), evalPoly(r.lo, witness))
+	}
+	return 2, fmt.Sprintf("index reaches %s while the mesh has %s vertices: with %s%s the largest index is %d but only %d vertices exist — an index past the vertex arrays", r.hi, N, strings.Join(ws, ", "), caseTxt, evalPoly(r.hi, witness), evalPoly(N, witness))
 }
 
 // ancestorLenForm: e = len(S) − k with S an earlier version (append ancestor) of one of the mesh's own per-vertex
